@@ -162,7 +162,7 @@ def _impl(ix, cls, name):
     return None
 
 
-@R.rule("C29-R1", floor=122, template="T-SIBLING/T-EXHAUST",
+@R.rule("C29-R1", floor=115, template="T-SIBLING/T-EXHAUST",
         desc="async proxies run the sync method of the same name (or a reasoned alias) through greenlet_spawn, "
              "forward every parameter under the sync signature's names; names listed in create_proxy_methods "
              "exist on the proxied class and the generated proxy reads the same name")
@@ -317,8 +317,25 @@ UNSHIELDED_OK = {
 }
 
 
-def _await_is_shielded(fnode, aw: ast.Await) -> bool:
+def _await_is_shielded(fnode, aw: ast.Await, ctx=None, f=None, depth: int = 0) -> bool:
+    """`await asyncio.shield(<task>)` where <task> is create_task(...)/ensure_future(...) (inline or a local), or an
+    await of a coroutine helper (`await self._shielded_close()`, `await _shielded(self.close())`; one level) that
+    itself awaits only through such shields."""
     v = aw.value
+    if isinstance(v, ast.Call) and ctx is not None and f is not None and depth < 2:
+        from ..index import FuncInfo
+        h = None
+        nm = call_name(v) or ""
+        if nm.startswith("self.") and nm.count(".") == 1 and f.cls is not None:
+            h = ctx.index.resolve_method(f.cls, nm[5:])
+        elif isinstance(v.func, ast.Name):
+            r = ctx.index.resolve(f.module, v.func.id)
+            h = r if isinstance(r, FuncInfo) else None
+        if h is not None and isinstance(h.node, ast.AsyncFunctionDef) and h.node is not fnode:
+            inner = [n for n in walk_local(h.node) if isinstance(n, ast.Await)]
+            if inner and all(_await_is_shielded(h.node, a, ctx, h, depth + 1) for a in inner):
+                ctx.functions_analysed.add(h.key)
+                return True
     if not (isinstance(v, ast.Call) and (call_name(v) or "") in ("asyncio.shield", "shield") and len(v.args) == 1):
         return False
     a = v.args[0]
@@ -362,7 +379,7 @@ def r2(ctx):
                 after = g.reachable(ys) - set(ys) - g.reachable([g.entry], avoid=ys)
                 stmts = [g.nodes[i].stmt for i in after if g.nodes[i].stmt is not None and g.nodes[i].kind == "stmt"]
                 awaits = [a for a in awaits if any(a is x for s in stmts for x in ast.walk(s))]
-            unshielded = [a for a in awaits if not _await_is_shielded(f.node, a)]
+            unshielded = [a for a in awaits if not _await_is_shielded(f.node, a, ctx, f)]
             if f.key in UNSHIELDED_OK and f.key not in MUST_SHIELD:
                 ctx.ok(f.key, "unshielded by design: " + UNSHIELDED_OK[f.key], nontrivial=False)
             elif awaits and not unshielded:
@@ -557,7 +574,7 @@ def _tries_of(fnode):
     return [n for n in walk_local(fnode) if isinstance(n, ast.Try)]
 
 
-@R.rule("C29-R5", floor=6, template="T-GUARD",
+@R.rule("C29-R5", floor=4, template="T-GUARD",
         desc="cancellation width: in the pool's accounting code (pool/base.py, pool/impl.py) every handler that "
              "undoes something and re-raises the caught exception is as wide as BaseException (bare / "
              "BaseException), or a BaseException-wide sibling handler of the same try performs the same undo; "
@@ -923,3 +940,16 @@ R.mutant("finalize-close-allowed-without-terminate", POOL,
 R.mutant("benign-reset-asyncio-safe-wraps-io-instead-of-early-return", POOL,
          sub("        if not asyncio_safe:\n            return\n\n        if pool._reset_on_return is reset_rollback:",
              "        driver_io_allowed = asyncio_safe\n        if not driver_io_allowed:\n            return\n\n        if pool._reset_on_return is reset_rollback:"), None)
+_CONN_AEXIT = "        task = asyncio.create_task(self.close())\n        await asyncio.shield(task)\n\n    # START PROXY METHODS AsyncConnection"
+R.mutant("benign-connection-aexit-shield-in-helper-coroutine", AENG,
+         sub(_CONN_AEXIT, "        await self._close_shielded()\n\n    async def _close_shielded(self) -> None:\n"
+                          "        closing = asyncio.ensure_future(self.close())\n        await asyncio.shield(closing)\n\n    # START PROXY METHODS AsyncConnection"), None)
+R.mutant("connection-aexit-helper-coroutine-not-shielded", AENG,
+         sub(_CONN_AEXIT, "        await self._close_shielded()\n\n    async def _close_shielded(self) -> None:\n"
+                          "        await self.close()\n\n    # START PROXY METHODS AsyncConnection"), "C29-R2")
+# the overflow undo of QueuePool._do_get as try/finally with a success flag: runs for every BaseException too; the
+# handler instance disappears, which the (lowered) floor of C29-R5 must tolerate
+R.mutant("benign-do-get-undo-in-finally-with-flag", POOL_IMPL,
+         sub("            try:\n                return self._create_connection()\n" + _UNDO,
+             "            created = False\n            try:\n                conn = self._create_connection()\n                created = True\n                return conn\n"
+             "            finally:\n                if not created:\n                    self._dec_overflow()\n"), None)
